@@ -242,6 +242,50 @@ def kill_sweep(exe, shim, root, seed, tier, stats):
     a.destroy()
     return problems
 
+def silent_write_faults(exe, shim, root, seed, tier, stats):
+    """the k-th write to the temporary file of one content copy silently stores a flipped bit: the copy must be
+    caught by the re-read CRC verification before any rename - a failing command leaves every copy the complete
+    old file, a succeeding one leaves all copies identical and loadable"""
+    rng = e2e.Rng(seed)
+    problems = []
+    nc = 2 + rng.below(3)
+    a = e2e.Arr(root, exe, ndisks=2, nparity=1, ncontent=nc)
+    s = sim.Sim(a, rng.fork(), weird_names=False); s.populate(2 + rng.below(3))
+    s.sync()
+    s.fs_random(3)
+    backup = root + '.bak'
+    shutil.copytree(a.root, backup, symlinks=True)
+    old = [open(c, 'rb').read() for c in a.contents]
+    for ci in range(nc):
+        for k in (1, 2):
+            shutil.rmtree(a.root); shutil.copytree(backup, a.root, symlinks=True)
+            cnt = os.path.join(vlib.scratch(), 'ccnt%d_%d_%d' % (seed, ci, k))
+            sub = '/c%d/content.tmp' % ci
+            # k == 1: the save made before the parity is touched (the final save is skipped so that its result stays visible)
+            extra = ['--test-kill-after-sync'] if k == 1 else []
+            r = a.cmd('sync', *extra, env={'LD_PRELOAD': shim, 'VERIF_CORRUPT': '%s:%d' % (sub, k), 'VERIF_COUNT': cnt}, uselog=False)
+            fired = os.path.exists(cnt) and 'fired=1' in open(cnt).read()
+            stats['silent_write'] = stats.get('silent_write', 0) + 1
+            if not fired:
+                stats['silent_write_not_fired'] = stats.get('silent_write_not_fired', 0) + 1
+                continue
+            blobs = [open(c, 'rb').read() if os.path.exists(c) else None for c in a.contents]
+            what = 'a flipped bit silently stored by write #%d to the temporary file of content copy %d of %d' % (k, ci, nc)
+            if r.rc != 0:
+                # the pre-sync save failed its verification: nothing may have been replaced by the damaged file
+                for i, b in enumerate(blobs):
+                    if b is None or (b != old[i] and not vlib.driver_query(['content-dump %d %s' % (a.block, b.hex())])[0].startswith('ok ')):
+                        problems.append(('[unverified-copy-installed] %s: sync fails (exit %d) but content copy %d is %s' % (what, r.rc, i, 'gone' if b is None else 'neither the old file nor a valid new one'), r.out[-600:]))
+            else:
+                bad = [i for i, b in enumerate(blobs) if b is None or not vlib.driver_query(['content-dump %d %s' % (a.block, b.hex())])[0].startswith('ok ')]
+                if bad or len(set(blobs)) != 1:
+                    problems.append(('[unverified-copy-installed] %s: sync exits 0 but the copies %s (damaged: %s)' % (what, 'differ' if len(set(blobs)) != 1 else 'are identical', bad), r.out[-600:]))
+            if problems: break
+        if problems: break
+    shutil.rmtree(backup, ignore_errors=True)
+    a.destroy()
+    return problems
+
 def main(tier, seed):
     chk = vlib.Check('C09', 'proof', tier, seed)
     chk.assumptions = ['"never loaded" is a theorem for any single changed byte only through the CRC (crc_detects_byte) given the parse reaches the N record; a changed structure byte may re-segment the file, acceptance then needs a 4-byte CRC coincidence (probability 2^-32 per case, not excluded by a theorem): every swept case is decided by running the binary and the Lean decoder',
@@ -269,6 +313,7 @@ def main(tier, seed):
     nkill = 3 if tier == 'quick' else 12
     for i in range(nsave): jobs.append(('save', i))
     for i in range(nkill): jobs.append(('kill', i))
+    for i in range(3 if tier == 'quick' else 20): jobs.append(('silent', i))
     def run(job):
         kind, i = job
         root = os.path.join(vlib.scratch(), '%s%d' % (kind, i))
@@ -276,6 +321,8 @@ def main(tier, seed):
             return kind, sweep(exe_san, root, i, seed * 1000 + i, tier, stats)
         if kind == 'save':
             return kind, save_protocol(exe, shim, root, seed * 1000 + 100 + i, stats)
+        if kind == 'silent':
+            return kind, silent_write_faults(exe, shim, root, seed * 1000 + 300 + i, tier, stats)
         return kind, kill_sweep(exe, shim, root, seed * 1000 + 200 + i, tier, stats)
     with ThreadPoolExecutor(vlib.NCPU) as ex:
         res = list(ex.map(run, jobs))
@@ -290,7 +337,7 @@ def main(tier, seed):
             chk.violation('C09 static obligation failed: ' + o[0], o[0] + '\n' + o[2], False, 'static')
     chk.evaluations = stats['runs'] + stats['saves'] + stats['kills']
     chk.distinct = stats['runs']
-    chk.rule = ('SWEEP on 3 content shapes (v2; v3 with split parity and 8-byte hashes; interrupted sync with pending/deleted blocks, links, 4-byte hashes): every truncation length (sampled above 700 bytes in quick) and byte offsets x {one bit, 0x00, 0xFF, +1} (thorough: every offset, every bit) + multi-byte damage; ASan+UBSan binary must exit non-zero and modify nothing, Lean decoder must reject. Save protocol: shim call logs of saves with 1..5 copies must be accepted by the proved acceptor. Kill sweep before/after/mid every content-file call of a sync')
+    chk.rule = ('SWEEP on 3 content shapes (v2; v3 with split parity and 8-byte hashes; interrupted sync with pending/deleted blocks, links, 4-byte hashes): every truncation length (sampled above 700 bytes in quick) and byte offsets x {one bit, 0x00, 0xFF, +1} (thorough: every offset, every bit) + multi-byte damage; ASan+UBSan binary must exit non-zero and modify nothing, Lean decoder must reject. Save protocol: shim call logs of saves with 1..5 copies must be accepted by the proved acceptor. Kill sweep before/after/mid every content-file call of a sync. Silent write faults: a flipped bit stored by the 1st/2nd write to the temporary file of each content copy (2-4 copies) must be caught by the verification before any rename')
     chk.samples = [dict(stats)]
     chk.corr['SWEEP+SAVE+KILL'] = {k: v for k, v in stats.items()}
     chk.finish()
